@@ -244,7 +244,21 @@ Theorem pad_split_sound :
     nth axis kept (0, 0) = nth axis m (0, 0).
 Proof. exact pad_split_sound_lemma. Qed.
 
+(* ---- convert_avg_pool_to_conv2d: an average pool with stride >= 4 as a convolution ---- *)
+(* with ones on the diagonal of the input-channel x output-channel plane every output channel receives exactly its own
+   input channel: for every depth, channel and window content *)
+Theorem diagonal_kernel_keeps_channels_apart :
+  forall depth co f, (co < depth)%nat -> channel_mix depth diag_weight f co = f co.
+Proof. exact diag_channel_sum_lemma. Qed.
+
+(* a kernel of ones everywhere (what the code wrote before e8de583) mixes the channels *)
+Theorem all_ones_kernel_refuted :
+  exists depth co f, (co < depth)%nat /\ channel_mix depth (fun _ _ => 1) f co <> f co.
+Proof. exact all_ones_kernel_refuted_lemma. Qed.
+
 Print Assumptions space_to_batch_conv_batch_to_space_is_dilation.
+Print Assumptions diagonal_kernel_keeps_channels_apart.
+Print Assumptions all_ones_kernel_refuted.
 Print Assumptions pad_twice_is_pad_once.
 Print Assumptions pad_split_sound.
 Print Assumptions widened_kernel_is_dilation.
